@@ -149,6 +149,7 @@ def compare(prop, scn, il, ml):
 
 def evaluate(prop, scns, variant, want_model=True):
     """run scenarios; returns list of problems: dict(kind, key, scn, text)"""
+    want_model = want_model and not getattr(prop, 'NO_MODEL', False)
     impl = common.run_impl(variant, scns)
     model = common.run_model(scns) if want_model else {}
     problems = []
